@@ -931,6 +931,13 @@ class Machine(object):
         self._checked_assignment(model, trigger, partial(self.events[trigger].trigger, model))
         self._add_may_transition_func_for_trigger(trigger, model)
 
+    def _remove_trigger_from_model(self, trigger, model):
+        # only remove what this machine has bound itself: models may define attributes named like a trigger
+        # (which have been skipped by _checked_assignment) or may never have been decorated (model_override)
+        bound_func = model.__dict__.get(trigger, None) if hasattr(model, '__dict__') else None
+        if isinstance(bound_func, partial) and getattr(bound_func.func, '__self__', None) in (self, self.events.get(trigger)):
+            delattr(model, trigger)
+
     def _get_trigger(self, model, trigger_name, *args, **kwargs):
         """Convenience function added to the model to trigger events by name.
         Args:
@@ -1158,7 +1165,7 @@ class Machine(object):
         # if no transition is left remove the trigger from the machine and all models
         else:
             for model in self.models:
-                delattr(model, trigger)
+                self._remove_trigger_from_model(trigger, model)
             del self.events[trigger]
 
     def dispatch(self, trigger, *args, **kwargs):
